@@ -1,3 +1,30 @@
+Base/Utf8.vo Base/Utf8.glob Base/Utf8.v.beautified Base/Utf8.required_vo: Base/Utf8.v 
+Base/Utf8.vio: Base/Utf8.v 
+Base/Utf8.vos Base/Utf8.vok Base/Utf8.required_vos: Base/Utf8.v 
+Base/Utf8Proofs.vo Base/Utf8Proofs.glob Base/Utf8Proofs.v.beautified Base/Utf8Proofs.required_vo: Base/Utf8Proofs.v Base/Utf8.vo
+Base/Utf8Proofs.vio: Base/Utf8Proofs.v Base/Utf8.vio
+Base/Utf8Proofs.vos Base/Utf8Proofs.vok Base/Utf8Proofs.required_vos: Base/Utf8Proofs.v Base/Utf8.vos
+Capi/CapiCheck.vo Capi/CapiCheck.glob Capi/CapiCheck.v.beautified Capi/CapiCheck.required_vo: Capi/CapiCheck.v Gen/CapiEffects.vo Capi/LastError.vo
+Capi/CapiCheck.vio: Capi/CapiCheck.v Gen/CapiEffects.vio Capi/LastError.vio
+Capi/CapiCheck.vos Capi/CapiCheck.vok Capi/CapiCheck.required_vos: Capi/CapiCheck.v Gen/CapiEffects.vos Capi/LastError.vos
+Capi/LastError.vo Capi/LastError.glob Capi/LastError.v.beautified Capi/LastError.required_vo: Capi/LastError.v Gen/CapiEffects.vo
+Capi/LastError.vio: Capi/LastError.v Gen/CapiEffects.vio
+Capi/LastError.vos Capi/LastError.vok Capi/LastError.required_vos: Capi/LastError.v Gen/CapiEffects.vos
+Capi/LastErrorProofs.vo Capi/LastErrorProofs.glob Capi/LastErrorProofs.v.beautified Capi/LastErrorProofs.required_vo: Capi/LastErrorProofs.v Gen/CapiEffects.vo Capi/LastError.vo
+Capi/LastErrorProofs.vio: Capi/LastErrorProofs.v Gen/CapiEffects.vio Capi/LastError.vio
+Capi/LastErrorProofs.vos Capi/LastErrorProofs.vok Capi/LastErrorProofs.required_vos: Capi/LastErrorProofs.v Gen/CapiEffects.vos Capi/LastError.vos
+Cli/Walk.vo Cli/Walk.glob Cli/Walk.v.beautified Cli/Walk.required_vo: Cli/Walk.v 
+Cli/Walk.vio: Cli/Walk.v 
+Cli/Walk.vos Cli/Walk.vok Cli/Walk.required_vos: Cli/Walk.v 
+Cli/WalkCheck.vo Cli/WalkCheck.glob Cli/WalkCheck.v.beautified Cli/WalkCheck.required_vo: Cli/WalkCheck.v Cli/Walk.vo Gen/WalkGen.vo
+Cli/WalkCheck.vio: Cli/WalkCheck.v Cli/Walk.vio Gen/WalkGen.vio
+Cli/WalkCheck.vos Cli/WalkCheck.vok Cli/WalkCheck.required_vos: Cli/WalkCheck.v Cli/Walk.vos Gen/WalkGen.vos
+Cli/WalkProofs.vo Cli/WalkProofs.glob Cli/WalkProofs.v.beautified Cli/WalkProofs.required_vo: Cli/WalkProofs.v Cli/Walk.vo
+Cli/WalkProofs.vio: Cli/WalkProofs.v Cli/Walk.vio
+Cli/WalkProofs.vos Cli/WalkProofs.vok Cli/WalkProofs.required_vos: Cli/WalkProofs.v Cli/Walk.vos
+Codec/CodecCheck.vo Codec/CodecCheck.glob Codec/CodecCheck.v.beautified Codec/CodecCheck.required_vo: Codec/CodecCheck.v Gen/CodecGen.vo Codec/Reader.vo Codec/Varint.vo Codec/Universe.vo Codec/Header.vo Codec/RulesShape.vo
+Codec/CodecCheck.vio: Codec/CodecCheck.v Gen/CodecGen.vio Codec/Reader.vio Codec/Varint.vio Codec/Universe.vio Codec/Header.vio Codec/RulesShape.vio
+Codec/CodecCheck.vos Codec/CodecCheck.vok Codec/CodecCheck.required_vos: Codec/CodecCheck.v Gen/CodecGen.vos Codec/Reader.vos Codec/Varint.vos Codec/Universe.vos Codec/Header.vos Codec/RulesShape.vos
 Codec/Header.vo Codec/Header.glob Codec/Header.v.beautified Codec/Header.required_vo: Codec/Header.v Gen/CodecGen.vo Codec/Reader.vo Codec/Varint.vo Codec/Universe.vo
 Codec/Header.vio: Codec/Header.v Gen/CodecGen.vio Codec/Reader.vio Codec/Varint.vio Codec/Universe.vio
 Codec/Header.vos Codec/Header.vok Codec/Header.required_vos: Codec/Header.v Gen/CodecGen.vos Codec/Reader.vos Codec/Varint.vos Codec/Universe.vos
@@ -10,6 +37,9 @@ Codec/Reader.vos Codec/Reader.vok Codec/Reader.required_vos: Codec/Reader.v
 Codec/ReaderProofs.vo Codec/ReaderProofs.glob Codec/ReaderProofs.v.beautified Codec/ReaderProofs.required_vo: Codec/ReaderProofs.v Codec/Reader.vo
 Codec/ReaderProofs.vio: Codec/ReaderProofs.v Codec/Reader.vio
 Codec/ReaderProofs.vos Codec/ReaderProofs.vok Codec/ReaderProofs.required_vos: Codec/ReaderProofs.v Codec/Reader.vos
+Codec/RulesShape.vo Codec/RulesShape.glob Codec/RulesShape.v.beautified Codec/RulesShape.required_vo: Codec/RulesShape.v Gen/CodecGen.vo Codec/Reader.vo Codec/Varint.vo Codec/Universe.vo
+Codec/RulesShape.vio: Codec/RulesShape.v Gen/CodecGen.vio Codec/Reader.vio Codec/Varint.vio Codec/Universe.vio
+Codec/RulesShape.vos Codec/RulesShape.vok Codec/RulesShape.required_vos: Codec/RulesShape.v Gen/CodecGen.vos Codec/Reader.vos Codec/Varint.vos Codec/Universe.vos
 Codec/Universe.vo Codec/Universe.glob Codec/Universe.v.beautified Codec/Universe.required_vo: Codec/Universe.v Codec/Reader.vo Codec/Varint.vo
 Codec/Universe.vio: Codec/Universe.v Codec/Reader.vio Codec/Varint.vio
 Codec/Universe.vos Codec/Universe.vok Codec/Universe.required_vos: Codec/Universe.v Codec/Reader.vos Codec/Varint.vos
@@ -22,6 +52,15 @@ Codec/Varint.vos Codec/Varint.vok Codec/Varint.required_vos: Codec/Varint.v Code
 Codec/VarintProofs.vo Codec/VarintProofs.glob Codec/VarintProofs.v.beautified Codec/VarintProofs.required_vo: Codec/VarintProofs.v Codec/Reader.vo Codec/ReaderProofs.vo Codec/Varint.vo
 Codec/VarintProofs.vio: Codec/VarintProofs.v Codec/Reader.vio Codec/ReaderProofs.vio Codec/Varint.vio
 Codec/VarintProofs.vos Codec/VarintProofs.vok Codec/VarintProofs.required_vos: Codec/VarintProofs.v Codec/Reader.vos Codec/ReaderProofs.vos Codec/Varint.vos
+Compiler/Accounting.vo Compiler/Accounting.glob Compiler/Accounting.v.beautified Compiler/Accounting.required_vo: Compiler/Accounting.v Gen/AstBuilderArms.vo
+Compiler/Accounting.vio: Compiler/Accounting.v Gen/AstBuilderArms.vio
+Compiler/Accounting.vos Compiler/Accounting.vok Compiler/Accounting.required_vos: Compiler/Accounting.v Gen/AstBuilderArms.vos
+Compiler/AccountingProofs.vo Compiler/AccountingProofs.glob Compiler/AccountingProofs.v.beautified Compiler/AccountingProofs.required_vo: Compiler/AccountingProofs.v Gen/AstBuilderArms.vo Compiler/Accounting.vo
+Compiler/AccountingProofs.vio: Compiler/AccountingProofs.v Gen/AstBuilderArms.vio Compiler/Accounting.vio
+Compiler/AccountingProofs.vos Compiler/AccountingProofs.vok Compiler/AccountingProofs.required_vos: Compiler/AccountingProofs.v Gen/AstBuilderArms.vos Compiler/Accounting.vos
+Compiler/CompilerCheck.vo Compiler/CompilerCheck.glob Compiler/CompilerCheck.v.beautified Compiler/CompilerCheck.required_vo: Compiler/CompilerCheck.v Base/Utf8.vo Gen/AstBuilderArms.vo Compiler/Accounting.vo
+Compiler/CompilerCheck.vio: Compiler/CompilerCheck.v Base/Utf8.vio Gen/AstBuilderArms.vio Compiler/Accounting.vio
+Compiler/CompilerCheck.vos Compiler/CompilerCheck.vok Compiler/CompilerCheck.required_vos: Compiler/CompilerCheck.v Base/Utf8.vos Gen/AstBuilderArms.vos Compiler/Accounting.vos
 Compiler/Snapshot.vo Compiler/Snapshot.glob Compiler/Snapshot.v.beautified Compiler/Snapshot.required_vo: Compiler/Snapshot.v Gen/SnapshotGen.vo
 Compiler/Snapshot.vio: Compiler/Snapshot.v Gen/SnapshotGen.vio
 Compiler/Snapshot.vos Compiler/Snapshot.vok Compiler/Snapshot.required_vos: Compiler/Snapshot.v Gen/SnapshotGen.vos
@@ -31,21 +70,90 @@ Compiler/SnapshotCheck.vos Compiler/SnapshotCheck.vok Compiler/SnapshotCheck.req
 Compiler/SnapshotProofs.vo Compiler/SnapshotProofs.glob Compiler/SnapshotProofs.v.beautified Compiler/SnapshotProofs.required_vo: Compiler/SnapshotProofs.v Gen/SnapshotGen.vo Compiler/Snapshot.vo
 Compiler/SnapshotProofs.vio: Compiler/SnapshotProofs.v Gen/SnapshotGen.vio Compiler/Snapshot.vio
 Compiler/SnapshotProofs.vos Compiler/SnapshotProofs.vok Compiler/SnapshotProofs.required_vos: Compiler/SnapshotProofs.v Gen/SnapshotGen.vos Compiler/Snapshot.vos
+Conc/Interleave.vo Conc/Interleave.glob Conc/Interleave.v.beautified Conc/Interleave.required_vo: Conc/Interleave.v Gen/ConcGen.vo
+Conc/Interleave.vio: Conc/Interleave.v Gen/ConcGen.vio
+Conc/Interleave.vos Conc/Interleave.vok Conc/Interleave.required_vos: Conc/Interleave.v Gen/ConcGen.vos
+Conc/InterleaveCheck.vo Conc/InterleaveCheck.glob Conc/InterleaveCheck.v.beautified Conc/InterleaveCheck.required_vo: Conc/InterleaveCheck.v Gen/ConcGen.vo Conc/Interleave.vo
+Conc/InterleaveCheck.vio: Conc/InterleaveCheck.v Gen/ConcGen.vio Conc/Interleave.vio
+Conc/InterleaveCheck.vos Conc/InterleaveCheck.vok Conc/InterleaveCheck.required_vos: Conc/InterleaveCheck.v Gen/ConcGen.vos Conc/Interleave.vos
+Conc/InterleaveProofs.vo Conc/InterleaveProofs.glob Conc/InterleaveProofs.v.beautified Conc/InterleaveProofs.required_vo: Conc/InterleaveProofs.v Gen/ConcGen.vo Conc/Interleave.vo
+Conc/InterleaveProofs.vio: Conc/InterleaveProofs.v Gen/ConcGen.vio Conc/Interleave.vio
+Conc/InterleaveProofs.vos Conc/InterleaveProofs.vok Conc/InterleaveProofs.required_vos: Conc/InterleaveProofs.v Gen/ConcGen.vos Conc/Interleave.vos
 Cond/Check.vo Cond/Check.glob Cond/Check.v.beautified Cond/Check.required_vo: Cond/Check.v Cond/Syntax.vo Cond/Sem.vo Cond/Quirks.vo Cond/RuleSet.vo
 Cond/Check.vio: Cond/Check.v Cond/Syntax.vio Cond/Sem.vio Cond/Quirks.vio Cond/RuleSet.vio
 Cond/Check.vos Cond/Check.vok Cond/Check.required_vos: Cond/Check.v Cond/Syntax.vos Cond/Sem.vos Cond/Quirks.vos Cond/RuleSet.vos
+Cond/HostCheck.vo Cond/HostCheck.glob Cond/HostCheck.v.beautified Cond/HostCheck.required_vo: Cond/HostCheck.v Cond/HostTypes.vo Cond/HostModel.vo Cond/Traps.vo Gen/HostFns.vo
+Cond/HostCheck.vio: Cond/HostCheck.v Cond/HostTypes.vio Cond/HostModel.vio Cond/Traps.vio Gen/HostFns.vio
+Cond/HostCheck.vos Cond/HostCheck.vok Cond/HostCheck.required_vos: Cond/HostCheck.v Cond/HostTypes.vos Cond/HostModel.vos Cond/Traps.vos Gen/HostFns.vos
+Cond/HostModel.vo Cond/HostModel.glob Cond/HostModel.v.beautified Cond/HostModel.required_vo: Cond/HostModel.v Cond/HostTypes.vo
+Cond/HostModel.vio: Cond/HostModel.v Cond/HostTypes.vio
+Cond/HostModel.vos Cond/HostModel.vok Cond/HostModel.required_vos: Cond/HostModel.v Cond/HostTypes.vos
+Cond/HostModelProofs.vo Cond/HostModelProofs.glob Cond/HostModelProofs.v.beautified Cond/HostModelProofs.required_vo: Cond/HostModelProofs.v Cond/HostTypes.vo Cond/HostModel.vo Gen/HostFns.vo
+Cond/HostModelProofs.vio: Cond/HostModelProofs.v Cond/HostTypes.vio Cond/HostModel.vio Gen/HostFns.vio
+Cond/HostModelProofs.vos Cond/HostModelProofs.vok Cond/HostModelProofs.required_vos: Cond/HostModelProofs.v Cond/HostTypes.vos Cond/HostModel.vos Gen/HostFns.vos
+Cond/HostTypes.vo Cond/HostTypes.glob Cond/HostTypes.v.beautified Cond/HostTypes.required_vo: Cond/HostTypes.v 
+Cond/HostTypes.vio: Cond/HostTypes.v 
+Cond/HostTypes.vos Cond/HostTypes.vok Cond/HostTypes.required_vos: Cond/HostTypes.v 
+Cond/IdentityShape.vo Cond/IdentityShape.glob Cond/IdentityShape.v.beautified Cond/IdentityShape.required_vo: Cond/IdentityShape.v Gen/PatternIdentity.vo
+Cond/IdentityShape.vio: Cond/IdentityShape.v Gen/PatternIdentity.vio
+Cond/IdentityShape.vos Cond/IdentityShape.vok Cond/IdentityShape.required_vos: Cond/IdentityShape.v Gen/PatternIdentity.vos
+Cond/IndepCheck.vo Cond/IndepCheck.glob Cond/IndepCheck.v.beautified Cond/IndepCheck.required_vo: Cond/IndepCheck.v Cond/Syntax.vo Cond/Sem.vo Cond/RuleSet.vo
+Cond/IndepCheck.vio: Cond/IndepCheck.v Cond/Syntax.vio Cond/Sem.vio Cond/RuleSet.vio
+Cond/IndepCheck.vos Cond/IndepCheck.vok Cond/IndepCheck.required_vos: Cond/IndepCheck.v Cond/Syntax.vos Cond/Sem.vos Cond/RuleSet.vos
+Cond/Independence.vo Cond/Independence.glob Cond/Independence.v.beautified Cond/Independence.required_vo: Cond/Independence.v Cond/Syntax.vo Cond/Sem.vo Cond/Rename.vo
+Cond/Independence.vio: Cond/Independence.v Cond/Syntax.vio Cond/Sem.vio Cond/Rename.vio
+Cond/Independence.vos Cond/Independence.vok Cond/Independence.required_vos: Cond/Independence.v Cond/Syntax.vos Cond/Sem.vos Cond/Rename.vos
+Cond/IndependenceProofs.vo Cond/IndependenceProofs.glob Cond/IndependenceProofs.v.beautified Cond/IndependenceProofs.required_vo: Cond/IndependenceProofs.v Cond/Syntax.vo Cond/Sem.vo Cond/Rename.vo Cond/SemProofs.vo Cond/Independence.vo
+Cond/IndependenceProofs.vio: Cond/IndependenceProofs.v Cond/Syntax.vio Cond/Sem.vio Cond/Rename.vio Cond/SemProofs.vio Cond/Independence.vio
+Cond/IndependenceProofs.vos Cond/IndependenceProofs.vok Cond/IndependenceProofs.required_vos: Cond/IndependenceProofs.v Cond/Syntax.vos Cond/Sem.vos Cond/Rename.vos Cond/SemProofs.vos Cond/Independence.vos
+Cond/Prec.vo Cond/Prec.glob Cond/Prec.v.beautified Cond/Prec.required_vo: Cond/Prec.v Gen/BindingPower.vo Gen/DocPrecedence.vo
+Cond/Prec.vio: Cond/Prec.v Gen/BindingPower.vio Gen/DocPrecedence.vio
+Cond/Prec.vos Cond/Prec.vok Cond/Prec.required_vos: Cond/Prec.v Gen/BindingPower.vos Gen/DocPrecedence.vos
+Cond/PrecProofs.vo Cond/PrecProofs.glob Cond/PrecProofs.v.beautified Cond/PrecProofs.required_vo: Cond/PrecProofs.v Gen/BindingPower.vo Gen/DocPrecedence.vo Cond/Prec.vo
+Cond/PrecProofs.vio: Cond/PrecProofs.v Gen/BindingPower.vio Gen/DocPrecedence.vio Cond/Prec.vio
+Cond/PrecProofs.vos Cond/PrecProofs.vok Cond/PrecProofs.required_vos: Cond/PrecProofs.v Gen/BindingPower.vos Gen/DocPrecedence.vos Cond/Prec.vos
 Cond/Quirks.vo Cond/Quirks.glob Cond/Quirks.v.beautified Cond/Quirks.required_vo: Cond/Quirks.v Cond/Syntax.vo Cond/Sem.vo
 Cond/Quirks.vio: Cond/Quirks.v Cond/Syntax.vio Cond/Sem.vio
 Cond/Quirks.vos Cond/Quirks.vok Cond/Quirks.required_vos: Cond/Quirks.v Cond/Syntax.vos Cond/Sem.vos
+Cond/Rename.vo Cond/Rename.glob Cond/Rename.v.beautified Cond/Rename.required_vo: Cond/Rename.v Cond/Syntax.vo
+Cond/Rename.vio: Cond/Rename.v Cond/Syntax.vio
+Cond/Rename.vos Cond/Rename.vok Cond/Rename.required_vos: Cond/Rename.v Cond/Syntax.vos
 Cond/RuleSet.vo Cond/RuleSet.glob Cond/RuleSet.v.beautified Cond/RuleSet.required_vo: Cond/RuleSet.v Cond/Syntax.vo Cond/Sem.vo
 Cond/RuleSet.vio: Cond/RuleSet.v Cond/Syntax.vio Cond/Sem.vio
 Cond/RuleSet.vos Cond/RuleSet.vok Cond/RuleSet.required_vos: Cond/RuleSet.v Cond/Syntax.vos Cond/Sem.vos
+Cond/RuleSetProofs.vo Cond/RuleSetProofs.glob Cond/RuleSetProofs.v.beautified Cond/RuleSetProofs.required_vo: Cond/RuleSetProofs.v Cond/Syntax.vo Cond/Sem.vo Cond/RuleSet.vo
+Cond/RuleSetProofs.vio: Cond/RuleSetProofs.v Cond/Syntax.vio Cond/Sem.vio Cond/RuleSet.vio
+Cond/RuleSetProofs.vos Cond/RuleSetProofs.vok Cond/RuleSetProofs.required_vos: Cond/RuleSetProofs.v Cond/Syntax.vos Cond/Sem.vos Cond/RuleSet.vos
 Cond/Sem.vo Cond/Sem.glob Cond/Sem.v.beautified Cond/Sem.required_vo: Cond/Sem.v Cond/Syntax.vo
 Cond/Sem.vio: Cond/Sem.v Cond/Syntax.vio
 Cond/Sem.vos Cond/Sem.vok Cond/Sem.required_vos: Cond/Sem.v Cond/Syntax.vos
+Cond/SemProofs.vo Cond/SemProofs.glob Cond/SemProofs.v.beautified Cond/SemProofs.required_vo: Cond/SemProofs.v Cond/Syntax.vo Cond/Sem.vo Cond/Rename.vo
+Cond/SemProofs.vio: Cond/SemProofs.v Cond/Syntax.vio Cond/Sem.vio Cond/Rename.vio
+Cond/SemProofs.vos Cond/SemProofs.vok Cond/SemProofs.required_vos: Cond/SemProofs.v Cond/Syntax.vos Cond/Sem.vos Cond/Rename.vos
 Cond/Syntax.vo Cond/Syntax.glob Cond/Syntax.v.beautified Cond/Syntax.required_vo: Cond/Syntax.v 
 Cond/Syntax.vio: Cond/Syntax.v 
 Cond/Syntax.vos Cond/Syntax.vok Cond/Syntax.required_vos: Cond/Syntax.v 
+Cond/Traps.vo Cond/Traps.glob Cond/Traps.v.beautified Cond/Traps.required_vo: Cond/Traps.v Cond/HostTypes.vo Cond/HostModel.vo
+Cond/Traps.vio: Cond/Traps.v Cond/HostTypes.vio Cond/HostModel.vio
+Cond/Traps.vos Cond/Traps.vok Cond/Traps.required_vos: Cond/Traps.v Cond/HostTypes.vos Cond/HostModel.vos
+Cond/TrapsProofs.vo Cond/TrapsProofs.glob Cond/TrapsProofs.v.beautified Cond/TrapsProofs.required_vo: Cond/TrapsProofs.v Cond/HostTypes.vo Cond/HostModel.vo Cond/Traps.vo Gen/HostFns.vo
+Cond/TrapsProofs.vio: Cond/TrapsProofs.v Cond/HostTypes.vio Cond/HostModel.vio Cond/Traps.vio Gen/HostFns.vio
+Cond/TrapsProofs.vos Cond/TrapsProofs.vok Cond/TrapsProofs.required_vos: Cond/TrapsProofs.v Cond/HostTypes.vos Cond/HostModel.vos Cond/Traps.vos Gen/HostFns.vos
+Fix/Escape.vo Fix/Escape.glob Fix/Escape.v.beautified Fix/Escape.required_vo: Fix/Escape.v Gen/FixApply.vo
+Fix/Escape.vio: Fix/Escape.v Gen/FixApply.vio
+Fix/Escape.vos Fix/Escape.vok Fix/Escape.required_vos: Fix/Escape.v Gen/FixApply.vos
+Fix/EscapeProofs.vo Fix/EscapeProofs.glob Fix/EscapeProofs.v.beautified Fix/EscapeProofs.required_vo: Fix/EscapeProofs.v Gen/FixApply.vo Fix/Escape.vo
+Fix/EscapeProofs.vio: Fix/EscapeProofs.v Gen/FixApply.vio Fix/Escape.vio
+Fix/EscapeProofs.vos Fix/EscapeProofs.vok Fix/EscapeProofs.required_vos: Fix/EscapeProofs.v Gen/FixApply.vos Fix/Escape.vos
+Fix/FixCheck.vo Fix/FixCheck.glob Fix/FixCheck.v.beautified Fix/FixCheck.required_vo: Fix/FixCheck.v Fix/Patch.vo
+Fix/FixCheck.vio: Fix/FixCheck.v Fix/Patch.vio
+Fix/FixCheck.vos Fix/FixCheck.vok Fix/FixCheck.required_vos: Fix/FixCheck.v Fix/Patch.vos
+Fix/Patch.vo Fix/Patch.glob Fix/Patch.v.beautified Fix/Patch.required_vo: Fix/Patch.v Gen/FixApply.vo
+Fix/Patch.vio: Fix/Patch.v Gen/FixApply.vio
+Fix/Patch.vos Fix/Patch.vok Fix/Patch.required_vos: Fix/Patch.v Gen/FixApply.vos
+Fix/PatchProofs.vo Fix/PatchProofs.glob Fix/PatchProofs.v.beautified Fix/PatchProofs.required_vo: Fix/PatchProofs.v Gen/FixApply.vo Fix/Patch.vo
+Fix/PatchProofs.vio: Fix/PatchProofs.v Gen/FixApply.vio Fix/Patch.vio
+Fix/PatchProofs.vos Fix/PatchProofs.vok Fix/PatchProofs.required_vos: Fix/PatchProofs.v Gen/FixApply.vos Fix/Patch.vos
 Fmt/Bubble.vo Fmt/Bubble.glob Fmt/Bubble.v.beautified Fmt/Bubble.required_vo: Fmt/Bubble.v Fmt/Tokens.vo Gen/FmtCats.vo Fmt/Processor.vo
 Fmt/Bubble.vio: Fmt/Bubble.v Fmt/Tokens.vio Gen/FmtCats.vio Fmt/Processor.vio
 Fmt/Bubble.vos Fmt/Bubble.vok Fmt/Bubble.required_vos: Fmt/Bubble.v Fmt/Tokens.vos Gen/FmtCats.vos Fmt/Processor.vos
@@ -67,21 +175,54 @@ Fmt/ProcessorProofs.vos Fmt/ProcessorProofs.vok Fmt/ProcessorProofs.required_vos
 Fmt/Tokens.vo Fmt/Tokens.glob Fmt/Tokens.v.beautified Fmt/Tokens.required_vo: Fmt/Tokens.v 
 Fmt/Tokens.vio: Fmt/Tokens.v 
 Fmt/Tokens.vos Fmt/Tokens.vok Fmt/Tokens.required_vos: Fmt/Tokens.v 
+Gen/AstBuilderArms.vo Gen/AstBuilderArms.glob Gen/AstBuilderArms.v.beautified Gen/AstBuilderArms.required_vo: Gen/AstBuilderArms.v 
+Gen/AstBuilderArms.vio: Gen/AstBuilderArms.v 
+Gen/AstBuilderArms.vos Gen/AstBuilderArms.vok Gen/AstBuilderArms.required_vos: Gen/AstBuilderArms.v 
+Gen/BindingPower.vo Gen/BindingPower.glob Gen/BindingPower.v.beautified Gen/BindingPower.required_vo: Gen/BindingPower.v 
+Gen/BindingPower.vio: Gen/BindingPower.v 
+Gen/BindingPower.vos Gen/BindingPower.vok Gen/BindingPower.required_vos: Gen/BindingPower.v 
+Gen/BoundsGen.vo Gen/BoundsGen.glob Gen/BoundsGen.v.beautified Gen/BoundsGen.required_vo: Gen/BoundsGen.v 
+Gen/BoundsGen.vio: Gen/BoundsGen.v 
+Gen/BoundsGen.vos Gen/BoundsGen.vok Gen/BoundsGen.required_vos: Gen/BoundsGen.v 
+Gen/CapiEffects.vo Gen/CapiEffects.glob Gen/CapiEffects.v.beautified Gen/CapiEffects.required_vo: Gen/CapiEffects.v 
+Gen/CapiEffects.vio: Gen/CapiEffects.v 
+Gen/CapiEffects.vos Gen/CapiEffects.vok Gen/CapiEffects.required_vos: Gen/CapiEffects.v 
 Gen/CodecGen.vo Gen/CodecGen.glob Gen/CodecGen.v.beautified Gen/CodecGen.required_vo: Gen/CodecGen.v 
 Gen/CodecGen.vio: Gen/CodecGen.v 
 Gen/CodecGen.vos Gen/CodecGen.vok Gen/CodecGen.required_vos: Gen/CodecGen.v 
+Gen/ConcGen.vo Gen/ConcGen.glob Gen/ConcGen.v.beautified Gen/ConcGen.required_vo: Gen/ConcGen.v 
+Gen/ConcGen.vio: Gen/ConcGen.v 
+Gen/ConcGen.vos Gen/ConcGen.vok Gen/ConcGen.required_vos: Gen/ConcGen.v 
+Gen/DocPrecedence.vo Gen/DocPrecedence.glob Gen/DocPrecedence.v.beautified Gen/DocPrecedence.required_vo: Gen/DocPrecedence.v 
+Gen/DocPrecedence.vio: Gen/DocPrecedence.v 
+Gen/DocPrecedence.vos Gen/DocPrecedence.vok Gen/DocPrecedence.required_vos: Gen/DocPrecedence.v 
+Gen/FastScanGen.vo Gen/FastScanGen.glob Gen/FastScanGen.v.beautified Gen/FastScanGen.required_vo: Gen/FastScanGen.v 
+Gen/FastScanGen.vio: Gen/FastScanGen.v 
+Gen/FastScanGen.vos Gen/FastScanGen.vok Gen/FastScanGen.required_vos: Gen/FastScanGen.v 
+Gen/FixApply.vo Gen/FixApply.glob Gen/FixApply.v.beautified Gen/FixApply.required_vo: Gen/FixApply.v 
+Gen/FixApply.vio: Gen/FixApply.v 
+Gen/FixApply.vos Gen/FixApply.vok Gen/FixApply.required_vos: Gen/FixApply.v 
 Gen/FmtCats.vo Gen/FmtCats.glob Gen/FmtCats.v.beautified Gen/FmtCats.required_vo: Gen/FmtCats.v Fmt/Tokens.vo
 Gen/FmtCats.vio: Gen/FmtCats.v Fmt/Tokens.vio
 Gen/FmtCats.vos Gen/FmtCats.vok Gen/FmtCats.required_vos: Gen/FmtCats.v Fmt/Tokens.vos
 Gen/FmtRules.vo Gen/FmtRules.glob Gen/FmtRules.v.beautified Gen/FmtRules.required_vo: Gen/FmtRules.v Fmt/Tokens.vo Gen/FmtCats.vo Fmt/Processor.vo Fmt/Bubble.vo
 Gen/FmtRules.vio: Gen/FmtRules.v Fmt/Tokens.vio Gen/FmtCats.vio Fmt/Processor.vio Fmt/Bubble.vio
 Gen/FmtRules.vos Gen/FmtRules.vok Gen/FmtRules.required_vos: Gen/FmtRules.v Fmt/Tokens.vos Gen/FmtCats.vos Fmt/Processor.vos Fmt/Bubble.vos
+Gen/FoldGen.vo Gen/FoldGen.glob Gen/FoldGen.v.beautified Gen/FoldGen.required_vo: Gen/FoldGen.v 
+Gen/FoldGen.vio: Gen/FoldGen.v 
+Gen/FoldGen.vos Gen/FoldGen.vok Gen/FoldGen.required_vos: Gen/FoldGen.v 
 Gen/Grammar.vo Gen/Grammar.glob Gen/Grammar.v.beautified Gen/Grammar.required_vo: Gen/Grammar.v Parser/Machine.vo
 Gen/Grammar.vio: Gen/Grammar.v Parser/Machine.vio
 Gen/Grammar.vos Gen/Grammar.vok Gen/Grammar.required_vos: Gen/Grammar.v Parser/Machine.vos
+Gen/HostFns.vo Gen/HostFns.glob Gen/HostFns.v.beautified Gen/HostFns.required_vo: Gen/HostFns.v Cond/HostTypes.vo
+Gen/HostFns.vio: Gen/HostFns.v Cond/HostTypes.vio
+Gen/HostFns.vos Gen/HostFns.vok Gen/HostFns.required_vos: Gen/HostFns.v Cond/HostTypes.vos
 Gen/PatConsts.vo Gen/PatConsts.glob Gen/PatConsts.v.beautified Gen/PatConsts.required_vo: Gen/PatConsts.v 
 Gen/PatConsts.vio: Gen/PatConsts.v 
 Gen/PatConsts.vos Gen/PatConsts.vok Gen/PatConsts.required_vos: Gen/PatConsts.v 
+Gen/PatternIdentity.vo Gen/PatternIdentity.glob Gen/PatternIdentity.v.beautified Gen/PatternIdentity.required_vo: Gen/PatternIdentity.v 
+Gen/PatternIdentity.vio: Gen/PatternIdentity.v 
+Gen/PatternIdentity.vos Gen/PatternIdentity.vok Gen/PatternIdentity.required_vos: Gen/PatternIdentity.v 
 Gen/ScanState.vo Gen/ScanState.glob Gen/ScanState.v.beautified Gen/ScanState.required_vo: Gen/ScanState.v 
 Gen/ScanState.vio: Gen/ScanState.v 
 Gen/ScanState.vos Gen/ScanState.vok Gen/ScanState.required_vos: Gen/ScanState.v 
@@ -91,15 +232,63 @@ Gen/SnapshotGen.vos Gen/SnapshotGen.vok Gen/SnapshotGen.required_vos: Gen/Snapsh
 Gen/TrackingGen.vo Gen/TrackingGen.glob Gen/TrackingGen.v.beautified Gen/TrackingGen.required_vo: Gen/TrackingGen.v Scanner/PrivIter.vo Scanner/Tracking.vo
 Gen/TrackingGen.vio: Gen/TrackingGen.v Scanner/PrivIter.vio Scanner/Tracking.vio
 Gen/TrackingGen.vos Gen/TrackingGen.vok Gen/TrackingGen.required_vos: Gen/TrackingGen.v Scanner/PrivIter.vos Scanner/Tracking.vos
+Gen/WalkGen.vo Gen/WalkGen.glob Gen/WalkGen.v.beautified Gen/WalkGen.required_vo: Gen/WalkGen.v 
+Gen/WalkGen.vio: Gen/WalkGen.v 
+Gen/WalkGen.vos Gen/WalkGen.vok Gen/WalkGen.required_vos: Gen/WalkGen.v 
+Opt/Bounds.vo Opt/Bounds.glob Opt/Bounds.v.beautified Opt/Bounds.required_vo: Opt/Bounds.v Gen/BoundsGen.vo
+Opt/Bounds.vio: Opt/Bounds.v Gen/BoundsGen.vio
+Opt/Bounds.vos Opt/Bounds.vok Opt/Bounds.required_vos: Opt/Bounds.v Gen/BoundsGen.vos
+Opt/BoundsProofs.vo Opt/BoundsProofs.glob Opt/BoundsProofs.v.beautified Opt/BoundsProofs.required_vo: Opt/BoundsProofs.v Gen/BoundsGen.vo Opt/Bounds.vo
+Opt/BoundsProofs.vio: Opt/BoundsProofs.v Gen/BoundsGen.vio Opt/Bounds.vio
+Opt/BoundsProofs.vos Opt/BoundsProofs.vok Opt/BoundsProofs.required_vos: Opt/BoundsProofs.v Gen/BoundsGen.vos Opt/Bounds.vos
+Opt/FastScan.vo Opt/FastScan.glob Opt/FastScan.v.beautified Opt/FastScan.required_vo: Opt/FastScan.v Gen/FastScanGen.vo
+Opt/FastScan.vio: Opt/FastScan.v Gen/FastScanGen.vio
+Opt/FastScan.vos Opt/FastScan.vok Opt/FastScan.required_vos: Opt/FastScan.v Gen/FastScanGen.vos
+Opt/FastScanProofs.vo Opt/FastScanProofs.glob Opt/FastScanProofs.v.beautified Opt/FastScanProofs.required_vo: Opt/FastScanProofs.v Gen/FastScanGen.vo Opt/FastScan.vo
+Opt/FastScanProofs.vio: Opt/FastScanProofs.v Gen/FastScanGen.vio Opt/FastScan.vio
+Opt/FastScanProofs.vos Opt/FastScanProofs.vok Opt/FastScanProofs.required_vos: Opt/FastScanProofs.v Gen/FastScanGen.vos Opt/FastScan.vos
+Opt/Fold.vo Opt/Fold.glob Opt/Fold.v.beautified Opt/Fold.required_vo: Opt/Fold.v Gen/FoldGen.vo
+Opt/Fold.vio: Opt/Fold.v Gen/FoldGen.vio
+Opt/Fold.vos Opt/Fold.vok Opt/Fold.required_vos: Opt/Fold.v Gen/FoldGen.vos
+Opt/FoldProofs.vo Opt/FoldProofs.glob Opt/FoldProofs.v.beautified Opt/FoldProofs.required_vo: Opt/FoldProofs.v Gen/FoldGen.vo Opt/Fold.vo
+Opt/FoldProofs.vio: Opt/FoldProofs.v Gen/FoldGen.vio Opt/Fold.vio
+Opt/FoldProofs.vos Opt/FoldProofs.vok Opt/FoldProofs.required_vos: Opt/FoldProofs.v Gen/FoldGen.vos Opt/Fold.vos
+Opt/OptCheck.vo Opt/OptCheck.glob Opt/OptCheck.v.beautified Opt/OptCheck.required_vo: Opt/OptCheck.v Gen/FoldGen.vo Opt/Fold.vo Gen/BoundsGen.vo Opt/Bounds.vo Gen/FastScanGen.vo Opt/FastScan.vo
+Opt/OptCheck.vio: Opt/OptCheck.v Gen/FoldGen.vio Opt/Fold.vio Gen/BoundsGen.vio Opt/Bounds.vio Gen/FastScanGen.vio Opt/FastScan.vio
+Opt/OptCheck.vos Opt/OptCheck.vok Opt/OptCheck.required_vos: Opt/OptCheck.v Gen/FoldGen.vos Opt/Fold.vos Gen/BoundsGen.vos Opt/Bounds.vos Gen/FastScanGen.vos Opt/FastScan.vos
 Parser/Machine.vo Parser/Machine.glob Parser/Machine.v.beautified Parser/Machine.required_vo: Parser/Machine.v 
 Parser/Machine.vio: Parser/Machine.v 
 Parser/Machine.vos Parser/Machine.vok Parser/Machine.required_vos: Parser/Machine.v 
+Parser/MachineExamples.vo Parser/MachineExamples.glob Parser/MachineExamples.v.beautified Parser/MachineExamples.required_vo: Parser/MachineExamples.v Parser/Machine.vo Parser/MachineProofs.vo Gen/Grammar.vo
+Parser/MachineExamples.vio: Parser/MachineExamples.v Parser/Machine.vio Parser/MachineProofs.vio Gen/Grammar.vio
+Parser/MachineExamples.vos Parser/MachineExamples.vok Parser/MachineExamples.required_vos: Parser/MachineExamples.v Parser/Machine.vos Parser/MachineProofs.vos Gen/Grammar.vos
+Parser/MachineProofs.vo Parser/MachineProofs.glob Parser/MachineProofs.v.beautified Parser/MachineProofs.required_vo: Parser/MachineProofs.v Parser/Machine.vo
+Parser/MachineProofs.vio: Parser/MachineProofs.v Parser/Machine.vio
+Parser/MachineProofs.vos Parser/MachineProofs.vok Parser/MachineProofs.required_vos: Parser/MachineProofs.v Parser/Machine.vos
 Parser/ParserCheck.vo Parser/ParserCheck.glob Parser/ParserCheck.v.beautified Parser/ParserCheck.required_vo: Parser/ParserCheck.v Parser/Machine.vo Parser/Position.vo Gen/Grammar.vo
 Parser/ParserCheck.vio: Parser/ParserCheck.v Parser/Machine.vio Parser/Position.vio Gen/Grammar.vio
 Parser/ParserCheck.vos Parser/ParserCheck.vok Parser/ParserCheck.required_vos: Parser/ParserCheck.v Parser/Machine.vos Parser/Position.vos Gen/Grammar.vos
 Parser/Position.vo Parser/Position.glob Parser/Position.v.beautified Parser/Position.required_vo: Parser/Position.v 
 Parser/Position.vio: Parser/Position.v 
 Parser/Position.vos Parser/Position.vok Parser/Position.required_vos: Parser/Position.v 
+Parser/PositionProofs.vo Parser/PositionProofs.glob Parser/PositionProofs.v.beautified Parser/PositionProofs.required_vo: Parser/PositionProofs.v Parser/Position.vo
+Parser/PositionProofs.vio: Parser/PositionProofs.v Parser/Position.vio
+Parser/PositionProofs.vos Parser/PositionProofs.vok Parser/PositionProofs.required_vos: Parser/PositionProofs.v Parser/Position.vos
+Pat/Base64.vo Pat/Base64.glob Pat/Base64.v.beautified Pat/Base64.required_vo: Pat/Base64.v Pat/Syntax.vo Pat/Sem.vo Pat/Matcher.vo Pat/Modifiers.vo Pat/ModifiersProofs.vo
+Pat/Base64.vio: Pat/Base64.v Pat/Syntax.vio Pat/Sem.vio Pat/Matcher.vio Pat/Modifiers.vio Pat/ModifiersProofs.vio
+Pat/Base64.vos Pat/Base64.vok Pat/Base64.required_vos: Pat/Base64.v Pat/Syntax.vos Pat/Sem.vos Pat/Matcher.vos Pat/Modifiers.vos Pat/ModifiersProofs.vos
+Pat/Blocks.vo Pat/Blocks.glob Pat/Blocks.v.beautified Pat/Blocks.required_vo: Pat/Blocks.v 
+Pat/Blocks.vio: Pat/Blocks.v 
+Pat/Blocks.vos Pat/Blocks.vok Pat/Blocks.required_vos: Pat/Blocks.v 
+Pat/BlocksProofs.vo Pat/BlocksProofs.glob Pat/BlocksProofs.v.beautified Pat/BlocksProofs.required_vo: Pat/BlocksProofs.v Pat/Blocks.vo
+Pat/BlocksProofs.vio: Pat/BlocksProofs.v Pat/Blocks.vio
+Pat/BlocksProofs.vos Pat/BlocksProofs.vok Pat/BlocksProofs.required_vos: Pat/BlocksProofs.v Pat/Blocks.vos
+Pat/C01Check.vo Pat/C01Check.glob Pat/C01Check.v.beautified Pat/C01Check.required_vo: Pat/C01Check.v Gen/PatConsts.vo Pat/Syntax.vo Pat/Sem.vo Pat/Matcher.vo Pat/Modifiers.vo Pat/MatchList.vo
+Pat/C01Check.vio: Pat/C01Check.v Gen/PatConsts.vio Pat/Syntax.vio Pat/Sem.vio Pat/Matcher.vio Pat/Modifiers.vio Pat/MatchList.vio
+Pat/C01Check.vos Pat/C01Check.vok Pat/C01Check.required_vos: Pat/C01Check.v Gen/PatConsts.vos Pat/Syntax.vos Pat/Sem.vos Pat/Matcher.vos Pat/Modifiers.vos Pat/MatchList.vos
+Pat/C01CheckProofs.vo Pat/C01CheckProofs.glob Pat/C01CheckProofs.v.beautified Pat/C01CheckProofs.required_vo: Pat/C01CheckProofs.v Gen/PatConsts.vo Pat/Syntax.vo Pat/Sem.vo Pat/Matcher.vo Pat/MatcherProofs.vo Pat/Modifiers.vo Pat/ModifiersProofs.vo Pat/MatchList.vo Pat/C01Check.vo
+Pat/C01CheckProofs.vio: Pat/C01CheckProofs.v Gen/PatConsts.vio Pat/Syntax.vio Pat/Sem.vio Pat/Matcher.vio Pat/MatcherProofs.vio Pat/Modifiers.vio Pat/ModifiersProofs.vio Pat/MatchList.vio Pat/C01Check.vio
+Pat/C01CheckProofs.vos Pat/C01CheckProofs.vok Pat/C01CheckProofs.required_vos: Pat/C01CheckProofs.v Gen/PatConsts.vos Pat/Syntax.vos Pat/Sem.vos Pat/Matcher.vos Pat/MatcherProofs.vos Pat/Modifiers.vos Pat/ModifiersProofs.vos Pat/MatchList.vos Pat/C01Check.vos
 Pat/MatchList.vo Pat/MatchList.glob Pat/MatchList.v.beautified Pat/MatchList.required_vo: Pat/MatchList.v Gen/PatConsts.vo
 Pat/MatchList.vio: Pat/MatchList.v Gen/PatConsts.vio
 Pat/MatchList.vos Pat/MatchList.vok Pat/MatchList.required_vos: Pat/MatchList.v Gen/PatConsts.vos
@@ -124,6 +313,12 @@ Pat/Sem.vos Pat/Sem.vok Pat/Sem.required_vos: Pat/Sem.v Pat/Syntax.vos
 Pat/Syntax.vo Pat/Syntax.glob Pat/Syntax.v.beautified Pat/Syntax.required_vo: Pat/Syntax.v 
 Pat/Syntax.vio: Pat/Syntax.v 
 Pat/Syntax.vos Pat/Syntax.vok Pat/Syntax.required_vos: Pat/Syntax.v 
+Pat/Teddy.vo Pat/Teddy.glob Pat/Teddy.v.beautified Pat/Teddy.required_vo: Pat/Teddy.v 
+Pat/Teddy.vio: Pat/Teddy.v 
+Pat/Teddy.vos Pat/Teddy.vok Pat/Teddy.required_vos: Pat/Teddy.v 
+Pat/TeddyProofs.vo Pat/TeddyProofs.glob Pat/TeddyProofs.v.beautified Pat/TeddyProofs.required_vo: Pat/TeddyProofs.v Pat/Teddy.vo
+Pat/TeddyProofs.vio: Pat/TeddyProofs.v Pat/Teddy.vio
+Pat/TeddyProofs.vos Pat/TeddyProofs.vok Pat/TeddyProofs.required_vos: Pat/TeddyProofs.v Pat/Teddy.vos
 Scanner/PrivIter.vo Scanner/PrivIter.glob Scanner/PrivIter.v.beautified Scanner/PrivIter.required_vo: Scanner/PrivIter.v 
 Scanner/PrivIter.vio: Scanner/PrivIter.v 
 Scanner/PrivIter.vos Scanner/PrivIter.vok Scanner/PrivIter.required_vos: Scanner/PrivIter.v 
@@ -136,6 +331,33 @@ Scanner/Results.vos Scanner/Results.vok Scanner/Results.required_vos: Scanner/Re
 Scanner/ResultsProofs.vo Scanner/ResultsProofs.glob Scanner/ResultsProofs.v.beautified Scanner/ResultsProofs.required_vo: Scanner/ResultsProofs.v Scanner/PrivIter.vo Scanner/PrivIterProofs.vo Scanner/Tracking.vo Gen/TrackingGen.vo Scanner/Results.vo Scanner/TrackingProofs.vo
 Scanner/ResultsProofs.vio: Scanner/ResultsProofs.v Scanner/PrivIter.vio Scanner/PrivIterProofs.vio Scanner/Tracking.vio Gen/TrackingGen.vio Scanner/Results.vio Scanner/TrackingProofs.vio
 Scanner/ResultsProofs.vos Scanner/ResultsProofs.vok Scanner/ResultsProofs.required_vos: Scanner/ResultsProofs.v Scanner/PrivIter.vos Scanner/PrivIterProofs.vos Scanner/Tracking.vos Gen/TrackingGen.vos Scanner/Results.vos Scanner/TrackingProofs.vos
+Scanner/Snippets.vo Scanner/Snippets.glob Scanner/Snippets.v.beautified Scanner/Snippets.required_vo: Scanner/Snippets.v 
+Scanner/Snippets.vio: Scanner/Snippets.v 
+Scanner/Snippets.vos Scanner/Snippets.vok Scanner/Snippets.required_vos: Scanner/Snippets.v 
+Scanner/SnippetsCheck.vo Scanner/SnippetsCheck.glob Scanner/SnippetsCheck.v.beautified Scanner/SnippetsCheck.required_vo: Scanner/SnippetsCheck.v Scanner/Snippets.vo
+Scanner/SnippetsCheck.vio: Scanner/SnippetsCheck.v Scanner/Snippets.vio
+Scanner/SnippetsCheck.vos Scanner/SnippetsCheck.vok Scanner/SnippetsCheck.required_vos: Scanner/SnippetsCheck.v Scanner/Snippets.vos
+Scanner/SnippetsProofs.vo Scanner/SnippetsProofs.glob Scanner/SnippetsProofs.v.beautified Scanner/SnippetsProofs.required_vo: Scanner/SnippetsProofs.v Scanner/Snippets.vo
+Scanner/SnippetsProofs.vio: Scanner/SnippetsProofs.v Scanner/Snippets.vio
+Scanner/SnippetsProofs.vos Scanner/SnippetsProofs.vok Scanner/SnippetsProofs.required_vos: Scanner/SnippetsProofs.v Scanner/Snippets.vos
+Scanner/State.vo Scanner/State.glob Scanner/State.v.beautified Scanner/State.required_vo: Scanner/State.v Gen/ScanState.vo
+Scanner/State.vio: Scanner/State.v Gen/ScanState.vio
+Scanner/State.vos Scanner/State.vok Scanner/State.required_vos: Scanner/State.v Gen/ScanState.vos
+Scanner/StateCheck.vo Scanner/StateCheck.glob Scanner/StateCheck.v.beautified Scanner/StateCheck.required_vo: Scanner/StateCheck.v Gen/ScanState.vo Scanner/State.vo
+Scanner/StateCheck.vio: Scanner/StateCheck.v Gen/ScanState.vio Scanner/State.vio
+Scanner/StateCheck.vos Scanner/StateCheck.vok Scanner/StateCheck.required_vos: Scanner/StateCheck.v Gen/ScanState.vos Scanner/State.vos
+Scanner/StateProofs.vo Scanner/StateProofs.glob Scanner/StateProofs.v.beautified Scanner/StateProofs.required_vo: Scanner/StateProofs.v Gen/ScanState.vo Scanner/State.vo
+Scanner/StateProofs.vio: Scanner/StateProofs.v Gen/ScanState.vio Scanner/State.vio
+Scanner/StateProofs.vos Scanner/StateProofs.vok Scanner/StateProofs.required_vos: Scanner/StateProofs.v Gen/ScanState.vos Scanner/State.vos
+Scanner/Timeout.vo Scanner/Timeout.glob Scanner/Timeout.v.beautified Scanner/Timeout.required_vo: Scanner/Timeout.v Gen/ScanState.vo Scanner/State.vo
+Scanner/Timeout.vio: Scanner/Timeout.v Gen/ScanState.vio Scanner/State.vio
+Scanner/Timeout.vos Scanner/Timeout.vok Scanner/Timeout.required_vos: Scanner/Timeout.v Gen/ScanState.vos Scanner/State.vos
+Scanner/TimeoutCheck.vo Scanner/TimeoutCheck.glob Scanner/TimeoutCheck.v.beautified Scanner/TimeoutCheck.required_vo: Scanner/TimeoutCheck.v Gen/ScanState.vo Scanner/State.vo Scanner/Timeout.vo Scanner/StateCheck.vo
+Scanner/TimeoutCheck.vio: Scanner/TimeoutCheck.v Gen/ScanState.vio Scanner/State.vio Scanner/Timeout.vio Scanner/StateCheck.vio
+Scanner/TimeoutCheck.vos Scanner/TimeoutCheck.vok Scanner/TimeoutCheck.required_vos: Scanner/TimeoutCheck.v Gen/ScanState.vos Scanner/State.vos Scanner/Timeout.vos Scanner/StateCheck.vos
+Scanner/TimeoutProofs.vo Scanner/TimeoutProofs.glob Scanner/TimeoutProofs.v.beautified Scanner/TimeoutProofs.required_vo: Scanner/TimeoutProofs.v Gen/ScanState.vo Scanner/State.vo Scanner/Timeout.vo
+Scanner/TimeoutProofs.vio: Scanner/TimeoutProofs.v Gen/ScanState.vio Scanner/State.vio Scanner/Timeout.vio
+Scanner/TimeoutProofs.vos Scanner/TimeoutProofs.vok Scanner/TimeoutProofs.required_vos: Scanner/TimeoutProofs.v Gen/ScanState.vos Scanner/State.vos Scanner/Timeout.vos
 Scanner/Tracking.vo Scanner/Tracking.glob Scanner/Tracking.v.beautified Scanner/Tracking.required_vo: Scanner/Tracking.v Scanner/PrivIter.vo
 Scanner/Tracking.vio: Scanner/Tracking.v Scanner/PrivIter.vio
 Scanner/Tracking.vos Scanner/Tracking.vok Scanner/Tracking.required_vos: Scanner/Tracking.v Scanner/PrivIter.vos
@@ -145,3 +367,12 @@ Scanner/TrackingCheck.vos Scanner/TrackingCheck.vok Scanner/TrackingCheck.requir
 Scanner/TrackingProofs.vo Scanner/TrackingProofs.glob Scanner/TrackingProofs.v.beautified Scanner/TrackingProofs.required_vo: Scanner/TrackingProofs.v Scanner/PrivIter.vo Scanner/PrivIterProofs.vo Scanner/Tracking.vo Gen/TrackingGen.vo Scanner/Results.vo
 Scanner/TrackingProofs.vio: Scanner/TrackingProofs.v Scanner/PrivIter.vio Scanner/PrivIterProofs.vio Scanner/Tracking.vio Gen/TrackingGen.vio Scanner/Results.vio
 Scanner/TrackingProofs.vos Scanner/TrackingProofs.vok Scanner/TrackingProofs.required_vos: Scanner/TrackingProofs.v Scanner/PrivIter.vos Scanner/PrivIterProofs.vos Scanner/Tracking.vos Gen/TrackingGen.vos Scanner/Results.vos
+Types/StructCheck.vo Types/StructCheck.glob Types/StructCheck.v.beautified Types/StructCheck.required_vo: Types/StructCheck.v Types/StructModel.vo
+Types/StructCheck.vio: Types/StructCheck.v Types/StructModel.vio
+Types/StructCheck.vos Types/StructCheck.vok Types/StructCheck.required_vos: Types/StructCheck.v Types/StructModel.vos
+Types/StructModel.vo Types/StructModel.glob Types/StructModel.v.beautified Types/StructModel.required_vo: Types/StructModel.v 
+Types/StructModel.vio: Types/StructModel.v 
+Types/StructModel.vos Types/StructModel.vok Types/StructModel.required_vos: Types/StructModel.v 
+Types/StructModelProofs.vo Types/StructModelProofs.glob Types/StructModelProofs.v.beautified Types/StructModelProofs.required_vo: Types/StructModelProofs.v Types/StructModel.vo
+Types/StructModelProofs.vio: Types/StructModelProofs.v Types/StructModel.vio
+Types/StructModelProofs.vos Types/StructModelProofs.vok Types/StructModelProofs.required_vos: Types/StructModelProofs.v Types/StructModel.vos
